@@ -61,6 +61,25 @@ func main() {
 			for _, f := range p.Funcs {
 				fmt.Println(p.FuncName(f), p.FuncPos(f))
 			}
+			if os.Getenv("WSCHECK_GENSIGS") != "" {
+				p.mainMembers(func(name, desc string, m ssa.Member) { fmt.Printf("MEM\t%q: %q,\n", name, desc) })
+				p.libTypes(func(key, und string, o *types.TypeName) { fmt.Printf("TYP\t%q: %q,\n", key, und) })
+				for _, f := range p.Funcs {
+					ps, fvs := paramsOf(f)
+					if len(ps) > 0 {
+						fmt.Printf("PRM\t%q: %#v,\n", p.FuncName(f), varList(ps))
+					}
+					if len(fvs) > 0 {
+						fmt.Printf("FVS\t%q: %#v,\n", p.FuncName(f), varList(fvs))
+					}
+				}
+				p.structFields(func(key, typ string, v *types.Var) { fmt.Printf("FLD\t%q: %q,\n", key, typ) })
+				for _, f := range p.Funcs {
+					if f.Parent() == nil {
+						fmt.Printf("SIG\t%q: %q,\n", p.FuncName(f), p.sigKey(f))
+					}
+				}
+			}
 		}
 		if *dumpSSA != "" {
 			f := p.Func(*dumpSSA)
@@ -130,6 +149,9 @@ func runProp(id, tier, repo, verif, evidence, archOverride string) (code int) {
 				return
 			}
 			pr.Run(p, r)
+			for _, n := range p.RenameNotes {
+				r.Note("%s", n)
+			}
 			seen := map[string]bool{}
 			for _, u := range p.Unresolved {
 				if !seen[u] {
